@@ -405,7 +405,7 @@ def gen_template(rng, name, family=None):
        tagjob-refchg : a referenced tag changes (query edit, mark add/del) while the referrer's job is parked
        convjob-2imp  : two imports complete while a converter job is parked at its start
        view-import   : on-demand conversion through a view opened before / during an import"""
-    family = family or rng.choice(["merge-fail", "conv-restart", "tagjob-attach", "tagjob-import", "tagjob-refchg", "tagjob-refchg", "convjob-2imp", "view-import", "convjob-detach", "view-multi",
+    family = family or rng.choice(["conv-malformed", "merge-fail", "conv-restart", "tagjob-attach", "tagjob-import", "tagjob-refchg", "tagjob-refchg", "convjob-2imp", "view-import", "convjob-detach", "view-multi",
                                    "view-multi", "tagjob-convdone", "import-corrupt", "tag-evalerr", "conv-baddir", "detach-datatag"])
     scn = _tmpl_base(rng, name, rng.choice([3, 4]))
     kinds, x = _file_kinds(rng, scn)
@@ -560,6 +560,20 @@ def gen_template(rng, name, family=None):
             acts += [["stepkind", "convert"], ["stepkind", "convert"], ["resetconv", "cvs"]]
         acts.append(["convreset", "cvs"])
         acts.append(["stepkind", "convert"])
+    elif family == "conv-malformed":
+        # many streams whose conversion fails while the answer is read (cvb, flagX): each failure is tried twice; every
+        # attempt has to give its process slot back (8 slots), the converter job must end
+        nb = rng.choice([5, 6, 6, 7])
+        scn["converters"] = ["cva", "cvb"]
+        scn["flows"] = [{"a": "10.0.0.%d:%d" % (1 + i % 3, 1001 + i), "b": "10.0.1.1:%d" % rng.choice([4321, 80])} for i in range(nb + 1)]
+        scn["files"][0] = [{"flow": i, "dir": rng.choice([0, 0, 1]), "t": 20000 + 1000 * i + rng.randrange(900),
+                            "data": "flagX" if (i < nb - 1 or rng.random() < 0.5) else rng.choice(WORDS)} for i in range(nb)]
+        scn["files"][1:] = [[{"flow": nb, "dir": 0, "t": 90000, "data": rng.choice(WORDS)}]]
+        acts.append(["addtag", "tag/a", add_def(("not", ("cport", [9])))])
+        acts.append(["settle", rng.randrange(1 << 20)])
+        acts.append(["setconv", "tag/a", rng.choice([["cvb"], ["cva", "cvb"]])])
+        if rng.random() < 0.4:
+            acts.append(["import", [1]])
     elif family == "merge-fail":
         # a merge fails (its output path is blocked): the failing run has to be excluded, the merges must not restart for ever
         acts.append(["import", [kinds["add"]]])
